@@ -100,6 +100,27 @@ func buildCompactSplit(w obs.AWorld, cores int, split int) (b6.World, error) {
 			return nil, err
 		}
 		return cw, cw.Merge(d2)
+	case 3:
+		// three independent files that all contain every point (the first also everything else): a point that
+		// matches a query is a result of three merged iterators and must be returned once
+		d1, err := buildCompact(features(w, true, nil), cores, nil)
+		if err != nil {
+			return nil, err
+		}
+		cw, err := compact.NewWorldFromData(d1)
+		if err != nil {
+			return nil, err
+		}
+		for i := 0; i < 2; i++ {
+			d, err := buildCompact(features(w, true, isPoint), cores, nil)
+			if err != nil {
+				return nil, err
+			}
+			if err := cw.Merge(d); err != nil {
+				return nil, err
+			}
+		}
+		return cw, nil
 	default:
 		d1, err := buildCompact(features(w, true, isPoint), cores, nil)
 		if err != nil {
